@@ -513,8 +513,59 @@ struct Runner : IRunner {
         }
         return r;
     }
+    std::string layout;
     template<class Comp>
-    void after_update(Comp&, UpdateResult&) {
+    void after_update(Comp& comp, UpdateResult&) {
+        // where things are, relative to the start of the policy's dispatch data (in words)
+        const std::uintptr_t* base = P::dispatch_data.data();
+        std::string s = "\"size\":" + std::to_string(P::dispatch_data.size()) + ",\"vptr\":[";
+        bool first = true;
+        std::set<int> live;
+        for (auto& [r, cr] : recs) {
+            live.insert(cr.c);
+        }
+        for (int c : live) {
+            const std::uintptr_t* vp = *static_vptr[c];
+            s += (first ? "[" : ",[") + std::to_string(c) + "," + std::to_string((long)(vp - base)) + "]";
+            first = false;
+        }
+        s += "],\"ms\":[";
+        first = true;
+        for (auto& sl : pool) {
+            if (!sl.declared) {
+                continue;
+            }
+            s += (first ? "[" : ",[") + std::to_string(sl.m) + ",[";
+            for (int i = 0; i < sl.arity; ++i) {
+                s += (i ? "," : "") + std::to_string(sl.info->slots_strides_ptr[i]);
+            }
+            s += "],[";
+            for (int i = 0; i + 1 < sl.arity; ++i) {
+                s += (i ? "," : "") + std::to_string(sl.info->slots_strides_ptr[sl.arity + i]);
+            }
+            s += "]]";
+            first = false;
+        }
+        s += "],\"dt\":[";
+        first = true;
+        for (auto& m : comp.methods) {
+            if (m.arity() < 2) {
+                continue;
+            }
+            for (auto& sl : pool) {
+                if (sl.declared && sl.info == m.info) {
+                    s += (first ? "[" : ",[") + std::to_string(sl.m) + "," +
+                         std::to_string((long)(m.gv_dispatch_table - base)) + "," +
+                         std::to_string(m.dispatch_table.size()) + "]";
+                    first = false;
+                }
+            }
+        }
+        s += "]";
+        layout = s;
+    }
+    std::string layout_json() const override {
+        return layout;
     }
 
     // ---- objects and calls
@@ -601,6 +652,7 @@ struct Runner : IRunner {
             return r;
         }
         g_rec.reset();
+        g_reads.clear();
         guarded(r, [&] {
             if (route == Route::resolve) {
                 r.o = classify(*s, s->do_resolve(o.data()));
@@ -609,6 +661,9 @@ struct Runner : IRunner {
                 collect_recv(r);
             }
         });
+        for (auto& rd : g_reads) {
+            r.reads.push_back({rd.kind, (long)(rd.addr - P::dispatch_data.data())});
+        }
         return r;
     }
     void next_of(int m, int d, int& o_called, int& o_ptr) override {
